@@ -1,7 +1,7 @@
 (* C05 — Each manipulation call has exactly the effect an ordered-tree model predicts.
    Pinned statements only.  Model: Model/Store.v, Model/Manip.v. *)
 From Coq Require Import List NArith Permutation.
-From XotV Require Import Model.Base Model.Zipper Model.Access Model.Store Model.Manip Proofs.StoreProofs Proofs.ManipProofs Proofs.InvSteps Proofs.TreeFrame Proofs.Canon Proofs.CloneShape Proofs.WrapEffect Proofs.DetachEffect Proofs.UnwrapEffect2 Spec.Shape Spec.NoAdj Proofs.NoAdjFacts Proofs.PlainFacts Proofs.PlainOps Proofs.Atomic Proofs.InvHist.
+From XotV Require Import Model.Base Model.Zipper Model.Access Model.Store Model.Manip Proofs.StoreProofs Proofs.ManipProofs Proofs.InvSteps Proofs.TreeFrame Proofs.Canon Proofs.CloneShape Proofs.WrapEffect Proofs.DetachEffect Proofs.UnwrapEffect2 Spec.Shape Spec.NoAdj Proofs.NoAdjFacts Proofs.PlainFacts Proofs.PlainOps Proofs.Atomic Proofs.InvHist Proofs.NoAdjOps Proofs.NoAdjFull.
 Import ListNotations.
 Open Scope N_scope.
 
@@ -233,6 +233,19 @@ Theorem C05_reading_is_the_identity_exactly_on_consolidated_stores :
   forall f, unormb true (erase f) = erase f <-> na f = true.
 Proof. exact reading_fixpoint. Qed.
 Print Assumptions C05_reading_is_the_identity_exactly_on_consolidated_stores.
+
+(* the two standing hypotheses of the statements above — the store is good, and has no adjacent text nodes while consolidation
+   is on — hold in every store a history of node-level calls reaches from the empty store, replace in every configuration
+   included (C04_no_adjacent_text_history), as long as consolidation is not switched off; once it is switched off the second
+   hypothesis asks nothing *)
+Theorem C05_plain_move_hypotheses_hold_in_every_reachable_store :
+  forall ops, forallb keeps_cons ops = true ->
+    Good (mfinal init_state ops) /\ (cons (mfinal init_state ops) = true -> noadj (mfinal init_state ops)).
+Proof.
+  intros ops Hp. split; [apply reachable_good|]. intros _.
+  exact (proj1 (noadj_history_full ops init_state Good_init eq_refl eq_refl Hp)).
+Qed.
+Print Assumptions C05_plain_move_hypotheses_hold_in_every_reachable_store.
 
 (* the argument checks, and the successful outcome, are what the statements above assume *)
 Theorem C05_checked_calls_succeed :
